@@ -44,6 +44,7 @@ class Replayer:
         from req_compile.dists import DistributionCollection
         GL.reset_caches()
         self.g = DistributionCollection()
+        self.gone = {}          # key -> node object of a solved project that has left the graph (the solver may still hold it)
 
     def entitled(self, op):
         """The operations the property quantifies over: inputs are fresh; a solve targets an existing
@@ -51,6 +52,28 @@ class Replayer:
         further extra is requested by a solved requirer that has the edge; invalidation hits a solved
         non-meta node; only nodes nobody requires are removed as roots."""
         g = self.g
+        if op.get("stale_source"):
+            # the solver goes on with the requirements of a distribution whose node a walk-back has meanwhile removed:
+            # it solves the next of them and files it with the removed node as the requirer
+            old = self.gone.get(op["source"])
+            if old is None or op["source"] in g.nodes or old.metadata is None or op.get("meta") is None or op["meta"]["isMeta"]:
+                return False
+            if str(op.get("reason")) not in [str(q) for q in old.metadata.requires()]:
+                return False
+            if GL.norm(op["meta"]["name"]) != op["key"] or not GL.P(op["reason"]).specifier.contains(GL.V(op["meta"]["version"]), prereleases=True):
+                return False
+            n = g.nodes.get(op["key"])
+            if n is None:
+                return True
+            if n.metadata is not None:
+                return False
+            try:
+                spec = n.build_constraints()
+            except Exception:
+                return False
+            finally:
+                GL.reset_caches()
+            return spec.specifier.contains(GL.V(op["meta"]["version"]), prereleases=True)
         if op["kind"] == "add":
             if op.get("meta") is not None and op["meta"]["isMeta"]:
                 return op["key"] not in g.nodes
@@ -90,8 +113,23 @@ class Replayer:
 
     def apply(self, op):
         g = self.g
+        before = dict(g.nodes)
+        try:
+            self._apply(op)
+        finally:
+            for k, n in before.items():
+                if k not in g.nodes and n.metadata is not None and not n.metadata.meta:
+                    self.gone[k] = n
+            for k in list(self.gone):
+                if k in g.nodes:
+                    del self.gone[k]
+
+    def _apply(self, op):
+        g = self.g
         if op["kind"] == "add":
             src = g.nodes.get(op["source"]) if op.get("source") else None
+            if op.get("stale_source"):
+                src = self.gone.get(op["source"])
             reason = GL.P(op["reason"]) if op.get("reason") else None
             if op.get("meta") is not None:
                 g.add_dist(GL.make_meta(op["meta"]), src, reason)
@@ -218,8 +256,21 @@ class HistoryStream(Stream):
         roots = set()
         ops = []
         for step in range(self.length):
-            kind = rng.choice(["input", "solve", "solve", "solve", "inval", "rmroot", "extra"])
+            kind = rng.choice(["input", "solve", "solve", "solve", "inval", "rmroot", "extra"] + (["stale-solve"] if mode == "dag" and rp.gone else []))
             op = None
+            if kind == "stale-solve":
+                cands = sorted((k, str(q)) for k, n in rp.gone.items() if n.metadata is not None for q in n.metadata.requires())
+                if not cands:
+                    continue
+                k, qtext = rng.choice(cands)
+                q = GL.P(qtext)
+                vs = [v for v in GL.VERS if q.specifier.contains(GL.V(v), prereleases=True)]
+                if not vs:
+                    continue
+                tk = GL.norm(q.name)
+                reqs = [r for r in (rand_req(rng, mode, tk) for _ in range(rng.randint(0, 2))) if r]
+                op = {"kind": "add", "key": tk, "meta": {"name": rng.choice(SPELL.get({GL.norm(n): n for n in NAMES}.get(tk, tk), [tk])), "version": rng.choice(vs), "isMeta": False, "reqs": reqs},
+                      "source": k, "reason": qtext, "stale_source": True}
             if kind == "input":
                 nm = "in%d.txt" % step
                 reqs = [rand_req(rng, "any") for _ in range(rng.randint(1, 3))]
@@ -378,6 +429,8 @@ class HistoryStream(Stream):
             fl.append("remove-root")
         if any(k == "add" and nometa for k, _, nometa in kinds):
             fl.append("late-extra")
+        if any(o.get("stale_source") for o in case["ops"]):
+            fl.append("solve-filed-under-a-removed-requirer")
         if any("err" in s for s in r["states"]):
             fl.append("raises")
         if any(v for v in r["verdicts"]):
@@ -387,9 +440,11 @@ class HistoryStream(Stream):
     def oracle(self, case, r):
         fails = []
         seen = set()
+        first_stale = min([i for i in r["applied"] if case["ops"][i].get("stale_source")] or [10 ** 9])
         for i, v in enumerate(r["verdicts"]):
+            stale = r["applied"][i] >= first_stale
             for e in v:
-                sig = "C10/%s/%s-alphabet" % (e, case["mode"])
+                sig = "C10/%s/%s" % (e, "stale-requirer-history" if stale else case["mode"] + "-alphabet")
                 if sig not in seen:
                     seen.add(sig)
                     fails.append((sig, {"after_op": r["applied"][i], "op": case["ops"][r["applied"][i]]}))
